@@ -169,6 +169,7 @@ def run(repo, rep, tier):
     _r9_array_braces(repo, rep)
     _r10_values_not_defaulted_by_truth(repo, rep)
     _r11_keyword_by_own_attribute(repo, rep)
+    _r13_declaration_cache_follows_repository(repo, rep)
     from .c09 import per_compile_state_rule
     per_compile_state_rule(repo, rep, rep.rule(
         'C08.R12', 'the compiler leaves the embedded-object mode (and other '
@@ -994,6 +995,78 @@ def _r10_values_not_defaulted_by_truth(repo, rep):
     if n < 4:
         raise AnalysisError('C08.R10: only %d constructor calls with a value '
                             'in the grammar actions' % n)
+
+
+def _r13_declaration_cache_follows_repository(repo, rep):
+    """C08.R13: the parser types every qualifier *value* (cimvalue(value,
+    decl.type)) and takes its flavors from the qualifier declaration in
+    parser.qualcache, not from the repository.  A grammar action that
+    stores a declaration in the repository (handle.SetQualifier(decl))
+    therefore stores the same declaration in the cache on every way out -
+    unconditionally: a cache entry that survives a re-declaration
+    (`setdefault`, `if name not in cache`) makes all later elements that
+    use the qualifier get the old type and flavors, so text produced by
+    tomof() (declarations followed by their uses) no longer recompiles to
+    equal objects."""
+    from ..paths import return_paths
+    from ..inline import Flat
+    r13 = rep.rule('C08.R13', 'a qualifier declaration written to the '
+                   'repository replaces the cached declaration')
+    n = 0
+    for f in repo.module(MOF).all_funcs():
+        # the grammar actions (p_...), with their private helpers inlined
+        if f.cls is not None or not f.name.startswith('p_'):
+            continue
+        sets = [c for c in walk_no_nested(Flat(f).node)
+                if isinstance(c, ast.Call) and
+                isinstance(c.func, ast.Attribute) and
+                c.func.attr == 'SetQualifier' and c.args and
+                'handle' in norm(c.func.value)]
+        if not sets:
+            continue
+        decls = {norm(c.args[0]) for c in sets}
+        n += 1
+        r13.sites += 1
+        r13.functions.add(f.fq)
+        paths = return_paths(Flat(f), max_paths=200)
+        if not paths:
+            raise AnalysisError('%s: paths not enumerable' % f.qualname)
+        for p_ in paths:
+            if not any(isinstance(c, ast.Call) and
+                       isinstance(c.func, ast.Attribute) and
+                       c.func.attr == 'SetQualifier'
+                       for st in p_.effects for c in ast.walk(st)):
+                continue
+            stores = [st for st in p_.effects
+                      if isinstance(st, ast.Assign) and
+                      len(st.targets) == 1 and
+                      isinstance(st.targets[0], ast.Subscript) and
+                      'qualcache' in norm(st.targets[0].value) and
+                      norm(p_.resolve(st.value)) in decls | {
+                          norm(p_.resolve(ast.parse(d, mode='eval').body))
+                          for d in decls}]
+            # a store that only runs when the name is not cached yet is not
+            # a replacement
+            cond = [t for t, pol in p_.facts
+                    if isinstance(t, ast.Compare) and len(t.ops) == 1 and
+                    isinstance(t.ops[0], (ast.In, ast.NotIn)) and
+                    'qualcache' in norm(t.comparators[0])]
+            ok = bool(stores) and not cond
+            r13.ob(ok, '%s|path' % f.qualname)
+            if not ok:
+                rep.finding(r13, f.qualname, 'qualcache[ns][%s]' % sorted(
+                    decls)[0], 'cache-not-replaced', MOF, f.node.lineno,
+                    'after handle.SetQualifier(%s) the declaration is not '
+                    'stored in parser.qualcache unconditionally (%s): a '
+                    're-declared qualifier keeps its old type and flavors '
+                    'for every element compiled afterwards'
+                    % (sorted(decls)[0],
+                       'conditional on ' + norm(cond[0], 50) if cond
+                       else 'no item store on this path'))
+                break
+    if n < 1:
+        raise AnalysisError('C08.R13: no grammar action calls '
+                            'handle.SetQualifier()')
 
 
 def _r11_keyword_by_own_attribute(repo, rep):
